@@ -140,10 +140,12 @@ def handleAt (toks : List String) : String :=
 
 def encCVal : CVal → String
   | .bool b => if b then "b:1" else "b:0"
+  | .int n => "i:" ++ toString n
   | .str s => "s:" ++ encStr s
 
 def decCVal (s : String) : CVal :=
-  if s == "b:1" then .bool true else if s == "b:0" then .bool false else .str (decStr (s.drop 2).toString)
+  if s == "b:1" then .bool true else if s == "b:0" then .bool false
+  else if s.startsWith "i:" then .int (s.drop 2).toString.toNat! else .str (decStr (s.drop 2).toString)
 
 def encCDict (d : Dict CVal) : String :=
   if d.isEmpty then "~" else ";".intercalate (d.map (fun kv => encStr (unintern kv.1) ++ "=" ++ encCVal kv.2))
